@@ -168,7 +168,7 @@ class TriggerHandler:
         if len(callbacks) > 0:
             logging.debug("Callbacks registered: %s", callbacks)
             self._callbacks.get().append(
-                CallbackContext(event, file, line, function, callbacks))
+                CallbackContext(event, file, line, function, callbacks, frame))
 
         return self.trace_call
 
